@@ -131,13 +131,13 @@ def run_program(seed, steps=8):
             t = rng.choice(STRS)
             a = rng.randint(0, len(f))
             b = rng.randint(a, len(f))
-            n = rng.randint(0, 2)
+            n = rng.randint(0, 2)           # ("mul" uses n, or n - 2 when flag_ is set: negative counts give the empty value)
             lo_, hi_, flag_ = rng.randint(-len(f) - 2, len(f) + 2), rng.randint(-len(f) - 2, len(f) + 2), rng.random() < .5
             wa_, wb_ = rng.randint(0, 3), rng.randint(0, 6)
             prog.append((op, i, j, t, a, b, n, lo_, hi_, flag_, wa_, wb_))
 
             def apply(f, g):
-                return {"add": lambda: [f + g], "addstr": lambda: [f + t], "raddstr": lambda: [t + f], "mul": lambda: [f * n],
+                return {"add": lambda: [f + g], "addstr": lambda: [f + t], "raddstr": lambda: [t + f], "mul": lambda: [f * (n - 2 * flag_ * (n > 0))],
                         "slice": lambda: [f[a:b]], "anyslice": lambda: [f[lo_:hi_]], "index": lambda: [f[a]], "splice": lambda: [f.splice(g, a, b)],
                         "splicestr": lambda: [f.splice(t, a)], "append": lambda: [f.append(g)], "join": lambda: [f.join([g, t, f])],
                         "split": lambda: f.split("a"), "splitlines": lambda: f.splitlines(), "ljust": lambda: [f.ljust(len(f) + 2)],
